@@ -262,18 +262,16 @@ mut('c16_constant_map_off_by_one', 'C16', 'model_modifier.py',
     '''    for buffer_idx, _ in enumerate(quantized_model.buffers):
       buffer_data = self._constant_map[buffer_idx - 1]''')
 mut('c16_small_buffers_inline', 'C16', 'model_modifier.py',
-    '''    for buffer in quantized_model.buffers:
-      if buffer.data is not None:
+    '''      if buffer.data is not None and len(buffer.data):
         buffer.data = None''',
-    '''    for buffer in quantized_model.buffers:
-      if buffer.data is not None and len(buffer.data) > 4:
+    '''      if buffer.data is not None and len(buffer.data) > 4:
         buffer.data = None''', 'tiny buffers stay inline but are appended and counted too')
 mut('c16_offset_from_second_pass_missing', 'C16', 'model_modifier.py',
     '      buffer.offset = len(dummy_bytearray)\n', '      buffer.offset = len(dummy_bytearray) - 16\n')
 mut('c16_sorted_constants', 'C16', 'model_modifier.py',
     '''    for buffer_idx, buffer in enumerate(quantized_model.buffers):
       buffer_data = self._constant_map[buffer_idx]
-      if buffer_data is None:
+      if buffer_data is None or not len(buffer_data):
         continue
       buffer.offset = len(dummy_bytearray)''',
     '''    for buffer_idx, buffer in sorted(
@@ -281,7 +279,7 @@ mut('c16_sorted_constants', 'C16', 'model_modifier.py',
         key=lambda b: len(self._constant_map[b[0]] or b''),
     ):
       buffer_data = self._constant_map[buffer_idx]
-      if buffer_data is None:
+      if buffer_data is None or not len(buffer_data):
         continue
       buffer.offset = len(dummy_bytearray)''', 'offsets assigned in size order, data appended in index order')
 
